@@ -743,7 +743,8 @@ def get_validation(tier, proj):
 # ---------------------------------------------------------------------------------------------------------------
 MC_BASE = {
     "RunKeys": {"", "k1", "k2"}, "Streams": {"primary", "interruptions", "mon1"},
-    "Dets": {"det", "det2", "pdet"}, "Motors": {"motor"}, "Mons": {"mon1"}, "Pausables": {"pdet"}, "Flyers": set(), "AsyncDevs": set(),
+    "Dets": {"det", "det2", "pdet", "apdet"}, "Motors": {"motor", "amotor"}, "Mons": {"mon1"}, "Pausables": {"pdet", "apdet"}, "Flyers": set(),
+    "AsyncDevs": set(),
     "ReadVal": "<- ReadValDef", "DataKeys": "<- DataKeysDef", "FutNames": {"f1", "f2"},
     "StreamOrder": "<- StreamOrderDef", "DevOrder": "<- DevOrderDef", "Prog": "<- ProgDef",
     "SuspPre": "<- SuspPreDef", "SuspPost": "<- SuspPostDef",
@@ -751,7 +752,7 @@ MC_BASE = {
 
 
 def mc_run(ctx, plan_name, *, max_req=2, req_kinds=REQ_KINDS, decisions=DECISIONS, max_faults=0, fault_kinds=(),
-           max_calls=1, max_updates=0, record_intr=True, pre=(), post=(), workers=None, timeout=1500, tag=None):
+           max_calls=1, max_updates=0, record_intr=True, pre=(), post=(), workers=None, timeout=1500, tag=None, async_devs=()):
     """model-check REMC for one program; returns (TLCResult, propviol list)"""
     p = PROGRAMS[plan_name]
     d = ctx.out
@@ -760,11 +761,11 @@ def mc_run(ctx, plan_name, *, max_req=2, req_kinds=REQ_KINDS, decisions=DECISION
 EXTENDS REMC
 M(c, o, r, a) == Msg(c, o, r, a)
 ProgDef == {prog_tla(p)}
-XD == {{"det", "det2", "pdet", "motor", "mon1"}}
-ReadValDef == [d \\in XD |-> CASE d = "motor" -> "dict:motor,motor_setpoint" [] OTHER -> "dict:" \\o d]
-DataKeysDef == [d \\in XD |-> CASE d = "motor" -> {{"motor", "motor_setpoint"}} [] OTHER -> {{d}}]
+XD == {{"det", "det2", "pdet", "motor", "mon1", "amotor", "apdet"}}
+ReadValDef == [d \\in XD |-> CASE d = "motor" -> "dict:motor,motor_setpoint" [] d = "amotor" -> "dict:amotor,amotor_setpoint" [] OTHER -> "dict:" \\o d]
+DataKeysDef == [d \\in XD |-> CASE d = "motor" -> {{"motor", "motor_setpoint"}} [] d = "amotor" -> {{"amotor", "amotor_setpoint"}} [] OTHER -> {{d}}]
 StreamOrderDef == <<"interruptions", "mon1", "primary">>
-DevOrderDef == <<"det", "det2", "mon1", "motor", "pdet">>
+DevOrderDef == <<"det", "det2", "mon1", "motor", "pdet", "amotor", "apdet">>
 SuspPreDef == <<{", ".join(tla_msg(m) for m in pre)}>>
 SuspPostDef == <<{", ".join(tla_msg(m) for m in post)}>>
 ====
@@ -778,7 +779,8 @@ SuspPostDef == <<{", ".join(tla_msg(m) for m in post)}>>
     (sd / f"{name}.tla").write_text(mod)
     consts = dict(MC_BASE)
     consts.update({"MaxReq": max_req, "ReqKinds": set(req_kinds), "MaxFaults": max_faults, "FaultKinds": set(fault_kinds),
-                   "Decisions": set(decisions), "MaxCalls": max_calls, "MaxUpdates": max_updates, "RecordIntr": record_intr})
+                   "Decisions": set(decisions), "MaxCalls": max_calls, "MaxUpdates": max_updates, "RecordIntr": record_intr,
+                   "AsyncDevs": set(async_devs)})
     cfg = write_cfg(sd / f"{name}.cfg", consts, spec="MCSpec", action_constraints=["MCReport"])
     res = run_tlc(name, cfg, spec_dir=sd, workers=workers or int(os.environ.get("VERIF_TLC_WORKERS", 8)), tag=name, timeout=timeout)
     return res, parse_propviol(res.stdout)
@@ -802,11 +804,14 @@ def tag_pred(prop):
 
 MC_JOBS = {
     # (plan, kwargs) per tier; kept small in quick (the machine-checked bound is stated in the evidence)
-    "quick": [("simple", dict(max_req=1)), ("fin", dict(max_req=1)), ("two", dict(max_req=1, req_kinds=["pause", "suspend", "abort"]))],
+    "quick": [("simple", dict(max_req=1)), ("fin", dict(max_req=1)), ("two", dict(max_req=1, req_kinds=["pause", "suspend", "abort"])),
+              # devices whose stop()/pause()/resume() really await: the pause sequence, suspension start and clean-up are parks
+              ("aopen", dict(max_req=1, async_devs=["amotor", "apdet"]))],
     "thorough": [("simple", dict(max_req=2)), ("fin", dict(max_req=2)), ("two", dict(max_req=2, req_kinds=["pause", "suspend", "abort", "defer"])),
                  ("move", dict(max_req=1, max_faults=1, fault_kinds=["raise", "fail", "later"])),
                  ("mon", dict(max_req=1, max_updates=2)), ("multi", dict(max_req=1)), ("defer", dict(max_req=2, req_kinds=["defer", "pause", "abort"])),
-                 ("norew", dict(max_req=2, req_kinds=["pause", "suspend"])), ("err", dict(max_req=1)), ("openonly", dict(max_req=2))],
+                 ("norew", dict(max_req=2, req_kinds=["pause", "suspend"])), ("err", dict(max_req=1)), ("openonly", dict(max_req=2)),
+                 ("aopen", dict(max_req=2, async_devs=["amotor", "apdet"])), ("amove", dict(max_req=1, async_devs=["amotor", "apdet"]))],
 }
 
 
